@@ -58,6 +58,25 @@
 #define HAVE_REF_ASSIGN_ELEM 1
 #endif
 
+#ifdef HX_FOOTPRINT
+#include <pthread.h>
+extern "C" {
+struct HxAccess
+{
+    uintptr_t addr;
+    uint32_t size;
+    uint32_t write;
+};
+void hx_fp_begin();
+void hx_fp_end();
+const HxAccess* hx_fp_log(size_t* n);
+unsigned hx_fp_atomics();
+unsigned hx_fp_overflow();
+void hx_fp_set_suppress(const int* p);
+extern char __data_start, _end;
+}
+#endif
+
 #define LIB(...)              \
     do                        \
     {                         \
@@ -1471,6 +1490,277 @@ struct Engine
             report("C06", "registry-terminal", "object-never-destroyed",
                    "%zu object(s) still alive after every container was destroyed", R().live.size());
     }
+
+#ifdef HX_FOOTPRINT
+    // ---------------------------------------------------------------- C19: access footprint of const operations
+    struct Region
+    {
+        uintptr_t lo, hi;
+        bool hit(uintptr_t a, std::size_t n) const { return a < hi && a + n > lo; }
+    };
+    long fp_ops = 0, fp_reads = 0, fp_writes = 0, fp_private_writes = 0, fp_other_writes = 0, fp_atomics = 0;
+
+    template <class T>
+    static long raw(const T& x)
+    {
+        if constexpr (IS_TRACKED<T>)
+            return x.val;
+        else if constexpr (std::is_same_v<T, Odd3>)
+            return x.a;
+        else if constexpr (std::is_same_v<T, W8>)
+            return x.v;
+        else
+            return static_cast<long>(x);
+    }
+    template <std::size_t I, class Ref>
+    static long touch_field(const Ref& r)
+    {
+        using Di = typename LS::template At<I>;
+        long acc = 0;
+        if constexpr (Di::kind == P)
+            acc += raw(cntgs::get<I>(r));
+        else
+            for (auto& x : cntgs::get<I>(r)) acc += raw(x);
+        return acc;
+    }
+    template <class Ref, std::size_t... I>
+    static long touch_impl(const Ref& r, std::index_sequence<I...>)
+    {
+        return (touch_field<I>(r) + ... + 0);
+    }
+    template <class Ref>
+    static long touch(const Ref& r)
+    {
+        return touch_impl(r, std::make_index_sequence<N>{});
+    }
+
+    static Region stack_region()
+    {
+        pthread_attr_t attr;
+        void* addr = nullptr;
+        std::size_t size = 0;
+        pthread_getattr_np(pthread_self(), &attr);
+        pthread_attr_getstack(&attr, &addr, &size);
+        pthread_attr_destroy(&attr);
+        return Region{reinterpret_cast<uintptr_t>(addr), reinterpret_cast<uintptr_t>(addr) + size};
+    }
+
+    // run f with recording on; shared = memory no access of kind `forbid_reads ? any : write` may touch
+    template <class F>
+    void fp_run(const char* name, const std::vector<Region>& shared, bool forbid_reads, F&& f)
+    {
+        static const Region stack = stack_region();
+        const unsigned op_before = L().op_serial;
+        ++L().op_serial;  // blocks born from here on belong to this operation
+        long sink = 0;
+        hx_fp_begin();
+        sink = f();
+        hx_fp_end();
+        (void)sink;
+        ++fp_ops;
+        std::size_t n = 0;
+        const HxAccess* log = hx_fp_log(&n);
+        fp_atomics += hx_fp_atomics();
+        const Region statics{reinterpret_cast<uintptr_t>(&__data_start), reinterpret_cast<uintptr_t>(&_end)};
+        bool reported_shared = false, reported_static = false;
+        for (std::size_t i = 0; i < n; ++i)
+        {
+            const HxAccess& a = log[i];
+            if (a.size == 0) continue;
+            if (a.write)
+                ++fp_writes;
+            else
+                ++fp_reads;
+            if (stack.hit(a.addr, a.size)) continue;
+            const bool matters = a.write || forbid_reads;
+            if (!matters) continue;
+            bool in_shared = false;
+            for (auto& r : shared) in_shared = in_shared || r.hit(a.addr, a.size);
+            if (in_shared)
+            {
+                if (!reported_shared)
+                    report("C19", "footprint", std::string(forbid_reads ? "touches-other-vector:" : "const-op-writes-shared:") + name,
+                           "%s: %s of %u bytes hits memory shared with other threads (the vector object, its block or its table)", name,
+                           a.write ? "write" : "read", a.size);
+                reported_shared = true;
+                continue;
+            }
+            if (!a.write) continue;
+            if (const Block* b = find_block(a.addr))
+            {
+                if (b->born_op > op_before)
+                {
+                    ++fp_private_writes;
+                    continue;
+                }
+            }
+            // the harness' own bookkeeping objects (allocator ledger, object registry, violation list)
+            const Region own[] = {{reinterpret_cast<uintptr_t>(&L()), reinterpret_cast<uintptr_t>(&L()) + sizeof(LedgerState)},
+                                  {reinterpret_cast<uintptr_t>(&R()), reinterpret_cast<uintptr_t>(&R()) + sizeof(Registry)},
+                                  {reinterpret_cast<uintptr_t>(&viols()), reinterpret_cast<uintptr_t>(&viols()) + sizeof(viols())}};
+            bool harness_own = false;
+            for (auto& r : own) harness_own = harness_own || r.hit(a.addr, a.size);
+            if (harness_own) continue;
+            if (statics.hit(a.addr, a.size))
+            {
+                if (!reported_static)
+                    report("C19", "footprint", std::string("writes-static-storage:") + name, "%s writes %u bytes of static storage", name, a.size);
+                reported_static = true;
+                continue;
+            }
+            ++fp_other_writes;
+        }
+        if (hx_fp_overflow()) report("INTERNAL", "footprint", "log-overflow", "access log overflow in %s", name);
+    }
+
+    std::vector<Region> live_block_regions() const
+    {
+        std::vector<Region> r;
+        for (auto& kv : L().blocks)
+            if (kv.second.live) r.push_back(Region{kv.second.p, kv.second.p + std::max<std::size_t>(kv.second.bytes, 1)});
+        return r;
+    }
+
+    void footprint_monitors()
+    {
+        if (!m[0].present || m[0].moved) return;
+        hx_fp_set_suppress(&L().harness_depth);
+        Vec& S = *v[0];
+        const Vec& cs = S;
+        std::vector<Region> shared = live_block_regions();
+        shared.push_back(Region{reinterpret_cast<uintptr_t>(&S), reinterpret_cast<uintptr_t>(&S) + sizeof(Vec)});
+        const std::string before = canon(false);
+        const std::size_t n = m[0].el.size();
+        fp_run("queries", shared, false,
+               [&]
+               {
+                   long a = static_cast<long>(cs.size() + cs.capacity() + cs.empty() + cs.memory_consumption());
+                   a += reinterpret_cast<long>(cs.data_begin()) + reinterpret_cast<long>(cs.data_end()) + reinterpret_cast<long>(cs.data());
+                   a += cs.get_allocator().arena();
+                   auto fs = lib_fixed_sizes(cs, std::make_index_sequence<LS::NF>{});
+                   for (auto f : fs) a += static_cast<long>(f);
+                   return a;
+               });
+        for (std::size_t i = 0; i < n; ++i)
+            fp_run("operator[]", shared, false, [&] { return touch(cs[i]); });
+        if (n > 0)
+        {
+            fp_run("front/back", shared, false, [&] { return touch(cs.front()) + touch(cs.back()); });
+            fp_run("iteration", shared, false,
+                   [&]
+                   {
+                       long a = 0;
+                       for (auto it = cs.begin(); it != cs.end(); ++it) a += touch(*it);
+                       for (auto&& r : cs) a += touch(r);
+                       auto b = cs.begin(), e = cs.end();
+                       a += (e - b) + (b < e) + (b == e) + (b + 1 <= e) + touch(b[static_cast<std::ptrdiff_t>(n - 1)]) + touch(*(e - 1));
+                       a += reinterpret_cast<long>(b.data());
+                       typename Vec::const_iterator ci = S.begin();  // conversion from the mutable iterator
+                       a += touch(*ci) + touch(*ci.operator->().operator->());
+                       return a;
+                   });
+        }
+#if HAVE_CMP
+        fp_run("compare-self", shared, false, [&] { return static_cast<long>((cs == cs) + (cs != cs) + (cs < cs) + (cs <= cs) + (cs > cs) + (cs >= cs)); });
+#endif
+#if HAVE_COPY
+        if constexpr (COPYABLE)
+        {
+            fp_run("copy-construct", shared, false,
+                   [&]
+                   {
+                       Vec d(cs);
+                       return static_cast<long>(d.size());
+                   });
+#if HAVE_CMP
+            {
+                L().in_lib = true;
+                Vec c(cs);
+                L().in_lib = false;
+                std::vector<Region> sh2 = live_block_regions();
+                sh2.push_back(Region{reinterpret_cast<uintptr_t>(&S), reinterpret_cast<uintptr_t>(&S) + sizeof(Vec)});
+                const Vec& cc = c;
+                fp_run("compare-with-copy", sh2, false, [&] { return static_cast<long>((cs == cc) + (cc == cs) + (cs < cc) + (cc < cs) + (cs != cc)); });
+            }
+#endif
+#if HAVE_ELEM
+            for (std::size_t i = 0; i < n; ++i)
+                fp_run("element-from-const_reference", shared, false,
+                       [&]
+                       {
+                           El e(cs[i]);
+                           const El& ce = e;
+                           return touch(typename Vec::const_reference{ce});
+                       });
+#endif
+            // distinct vectors copied from one another: mutators of a copy never touch the original (or a
+            // further copy), whether reading or writing
+            auto with_copies = [&](const char* name, auto&& mut)
+            {
+                L().in_lib = true;
+                Vec c1(cs);
+                Vec c2(std::as_const(c1));
+                L().in_lib = false;
+                std::vector<Region> others;
+                {
+                    // everything except c1's own blocks: S's object and blocks, c2's blocks
+                    const Block* b1 = find_block(reinterpret_cast<uintptr_t>(c1.data_begin()), true);
+                    for (auto& kv : L().blocks)
+                    {
+                        if (!kv.second.live) continue;
+                        if (b1 && kv.second.serial == b1->serial) continue;
+                        if (kv.second.elem_size == sizeof(std::size_t) && kv.second.serial > 0 && b1 && kv.second.serial == b1->serial + 1)
+                            continue;  // c1's own table is allocated right after its data block
+                        others.push_back(Region{kv.second.p, kv.second.p + std::max<std::size_t>(kv.second.bytes, 1)});
+                    }
+                    others.push_back(Region{reinterpret_cast<uintptr_t>(&S), reinterpret_cast<uintptr_t>(&S) + sizeof(Vec)});
+                }
+                fp_run(name, others, true, [&] { return mut(c1); });
+            };
+            with_copies("copy.clear", [&](Vec& c) { c.clear(); return 0L; });
+            if (n > 0)
+            {
+                with_copies("copy.pop_back", [&](Vec& c) { c.pop_back(); return 0L; });
+#if HAVE_ERASE
+                if (op_tag_would_overlap_free(0)) with_copies("copy.erase", [&](Vec& c) { c.erase(c.begin()); return 0L; });
+#endif
+                with_copies("copy.read", [&](Vec& c) { return touch(c[0]); });
+            }
+#if HAVE_RESERVE
+            if (m[0].cap < 6)
+                with_copies("copy.reserve", [&](Vec& c)
+                            {
+                                if constexpr (LS::NV > 0)
+                                    c.reserve(m[0].cap + 1, m[0].budget + LS::UNIT);
+                                else
+                                    c.reserve(m[0].cap + 1);
+                                return 0L;
+                            });
+#endif
+            with_copies("copy.destroy", [&](Vec& c) { Vec moved(std::move(c)); return static_cast<long>(moved.size()); });
+        }
+#endif
+        if (canon(false) != before) report("C19", "footprint", "const-ops-change-state", "the const operations changed the state of the vector");
+        obs += ";fp" + std::to_string(fp_ops);
+    }
+    // erase on the copy is only exercised when it does not run into known finding K1 (overlapping relocation)
+    bool op_tag_would_overlap_free(int t)
+    {
+        if constexpr (LS::NV > 0 && !LS::ALL_TRIVIAL)
+        {
+            const std::string keep = op_tag;
+            tag_relocation(t, 0, 1);
+            const bool ok = op_tag != "reloc-overlap";
+            op_tag = keep;
+            return ok;
+        }
+        else
+        {
+            (void)t;
+            return true;
+        }
+    }
+#endif  // HX_FOOTPRINT
 
     // ---------------------------------------------------------------- canonical form
     std::string canon(bool with_phase = true)
